@@ -630,22 +630,45 @@ def load (r0 : Repo) (depth : Int) (genesis : Hdr) : Repo × Option Fail :=
   | some idx =>
     if idx.isEmpty then (r, some (.err "No branches to load"))
     else
-      let rec rd : List Nat → Repo → Int → List Nat → M (Repo × List Nat)
-        | [], r, _, acc => .ok (r, acc)
-        | k :: rest, r, pruneHeight, acc =>
+      -- read every indexed branch file
+      let rec rd : List Nat → List Branch → M (List Branch)
+        | [], acc => .ok acc
+        | k :: rest, acc =>
           match List.lookup k r.store.branches with
           | none => .error (.err "branch: read")
-          | some bf =>
-            let b := branchOfFile bf
-            let pruneHeight := if pruneHeight = -1 then b.height - depth else pruneHeight
-            if b.height < pruneHeight then rd rest r pruneHeight acc
-            else
-              let b' := if b.prunedLowest ≤ pruneHeight then pruneBranch b (pruneHeight - b.prunedLowest) else b
-              let bi := r.arena.length
-              -- loadBranchHashHeights (repaired): heights from the lowest retained height
-              let hm := (b'.headers.zipIdx).foldl (fun m (d, i) => HMap.set m d.hdr.id (b'.prunedLowest + (i : Int))) r.heights
-              rd rest { r with arena := r.arena ++ [b'], heights := hm } pruneHeight (acc ++ [bi])
-      match rd idx r (-1) [] with
+          | some bf => rd rest (acc ++ [branchOfFile bf])
+      -- (repaired) keep the branches that reach the prune depth and the branches those are built on;
+      -- do not prune below a header a kept branch is built on
+      let keepStep (bs : List Branch) (keep : List Bool) : List Bool :=
+        (bs.zip keep).map fun (b, k) =>
+          k || (bs.zip keep).any fun (c, kc) =>
+            kc && c.parentHeight != -1 && (b.hmap.get? c.first.prev).getD (-1) == c.parentHeight
+      let rec keepFix : Nat → List Branch → List Bool → List Bool
+        | 0, _, keep => keep
+        | n + 1, bs, keep => keepFix n bs (keepStep bs keep)
+      let place (r : Repo) (bs : List Branch) (keep : List Bool) (pruneHeight : Int) : Repo × List Nat :=
+        (bs.zip keep).foldl (fun (acc : Repo × List Nat) (b, k) =>
+          if !k then acc
+          else
+            let r := acc.1
+            let b' := if b.prunedLowest ≤ pruneHeight then pruneBranch b (pruneHeight - b.prunedLowest) else b
+            let bi := r.arena.length
+            -- loadBranchHashHeights (repaired): heights from the lowest retained height
+            let hm := (b'.headers.zipIdx).foldl (fun m (d, i) => HMap.set m d.hdr.id (b'.prunedLowest + (i : Int))) r.heights
+            ({ r with arena := r.arena ++ [b'], heights := hm }, acc.2 ++ [bi])) (r, [])
+      let rdAll : M (Repo × List Nat) :=
+        match rd idx [] with
+        | .error e => .error e
+        | .ok bs =>
+          match bs.head? with
+          | none => .ok (r, [])
+          | some b0 =>
+            let keepHeight := b0.height - depth
+            let keep := keepFix bs.length bs (bs.map fun b => decide (b.height ≥ keepHeight))
+            let pruneHeight := (bs.zip keep).foldl (fun (ph : Int) (b, k) =>
+              if k && b.parentHeight != -1 && b.parentHeight < ph then b.parentHeight else ph) keepHeight
+            .ok (place r bs keep pruneHeight)
+      match rdAll with
       | .error e => (r, some e)
       | .ok (r1, loaded) =>
         if loaded.isEmpty then (r1, some (.err "No branches loaded"))
